@@ -250,7 +250,10 @@ func catchPanic(function func()) (err error) {
 				func() {
 					defer func() {
 						if again := recover(); again != nil {
-							if _, ok := again.(*exception); !ok {
+							switch again.(type) {
+							case *exception, *Error, ottoError, Value:
+								// Script exceptions, and the same thrown by a Go function.
+							default:
 								panic(again)
 							}
 						}
